@@ -219,8 +219,10 @@ inductive Prim where
   | errorf | fatalf | iopanic | leastbytes | leastbits
 deriving DecidableEq, Repr
 
-/-- decode.go:950 RangeFn with a function that reads nothing -/
+/-- decode.go:956 RangeFn with a function that reads nothing (since 2947129a a negative length is a
+    DecoderError before anything else) -/
 def rangeFn (s : St) (first n : Int) : Outcome St :=
+  if n < 0 then .panic .decoderError else             -- d.Fatalf("%d nBits < 0")
   match bitioxRange s 0 (wrap64 (first + n)) with   -- d.BitBufRange(0, firstBit+nBits)
   | .err => .panic .ioError
   | .fault w => .panic (.runtime w)
@@ -271,6 +273,23 @@ def corePrim (p : Prim) (s : St) (a : Int) : Outcome St :=
 def Prim.unsafeArg : Prim → Bool
   | .bits | .byteslen | .bytesrange | .peekbytes | .alignbits => true
   | _ => false
+
+/-- the core after the proposed repair (/verif/fixes/proposed/C06_decode_core_check_before_alloc_alignbits_zero.patch):
+    the allocating readers clamp their buffer to what is left, so what was a runtime fault becomes the
+    IOError of the failing read; AlignBits rejects nBits <= 0. Kept so that the driver recognises the fix
+    (it accepts the current OR the repaired prediction for the five unsafe primitives only). -/
+def corePrimRepaired (p : Prim) (s : St) (a : Int) : Outcome St :=
+  match p with
+  | .alignbits => if a ≤ 0 then .panic .ioError else .ok s
+  | .bytesrange =>      -- the patch refuses what the whole buffer cannot hold before allocating
+    if a > s.len / 8 + 8 then .panic .ioError
+    else match corePrim .bytesrange s a with
+      | .panic (.runtime _) => .panic .ioError
+      | o => o
+  | _ =>
+    match corePrim p s a with
+    | .panic (.runtime _) => .panic .ioError
+    | o => o
 
 /-- `o` raises only recoverable values -/
 def OnlyRec {α : Type} (o : Outcome α) : Prop := ∀ v, o = .panic v → v.recoverable = true
